@@ -68,6 +68,9 @@ def run(ctx):
     for name, src in KERNELS.items():
         for fi, fam in enumerate(fams):
             jid = "k-%s-%d" % (name, fi)
+            if name.startswith("late-") and fi == 0:
+                # the window in which the cycle has to start is a few instructions wide: every start point, also in quick
+                fam = dict(fam, points=100000, marks=[1, 2, 64])
             jobs.append({"id": jid, "files": {"main.abra": src}, "run_gen": fam})
             meta[jid] = ("kernel:" + name, src)
     n = 150 if ctx.quick else 3000
